@@ -47,12 +47,13 @@ func saltedSeed(seed []byte, salt string) []byte {
 // room for 9 redraws in the rejection loops (each has probability < 2^-26).
 const mainWords = 96
 
+// streams and float64 bit patterns are emitted as bytes (Coq parses small numerals much faster than 20-digit ones)
 func words(ws []uint64) string {
-	it := make([]string, len(ws))
+	b := make([]byte, 8*len(ws))
 	for i, w := range ws {
-		it[i] = fmt.Sprint(w)
+		binary.BigEndian.PutUint64(b[8*i:], w)
 	}
-	return vh.List(it)
+	return vh.Bytes(b)
 }
 
 // ---- weights ----
@@ -102,11 +103,11 @@ func randomWeights(c *vh.Ctx) []float64 {
 }
 
 func wbits(v []float64) string {
-	it := make([]string, len(v))
+	ws := make([]uint64, len(v))
 	for i, x := range v {
-		it[i] = fmt.Sprint(math.Float64bits(x))
+		ws[i] = math.Float64bits(x)
 	}
-	return vh.List(it)
+	return words(ws)
 }
 
 // ---- observation of a ClientHelloSpec ----
@@ -146,7 +147,7 @@ func observe(p *tls.ClientHelloSpec) obs {
 		case *tls.SNIExtension:
 			o.exts = append(o.exts, oext{kind: "ESNI", strs: []string{x.ServerName}})
 		case *tls.SessionTicketExtension:
-			if x.Session != nil || x.Ticket != nil || x.Initialized || x.InitializedByUser {
+			if x.Session != nil || x.Ticket != nil || x.Initialized {
 				other = append(other, "session ticket extension not empty")
 			}
 			o.exts = append(o.exts, oext{kind: "ESessionTicket"})
@@ -690,7 +691,7 @@ func helpers(c *vh.Ctx, tb *tables) {
 		}
 		in := append([]uint16(nil), s...)
 		out := tls.VerifRemoveRandomCiphers(&seed, in, w)
-		c.Case("removeRandomCiphers", fmt.Sprintf("CRemove %s %s %d %s", words(shakeWords(seed[:], ln+1)), vh.U16s(s), math.Float64bits(w), vh.U16s(out)),
+		c.Case("removeRandomCiphers", fmt.Sprintf("CRemove %s %s %s %s", words(shakeWords(seed[:], ln+1)), vh.U16s(s), wbits([]float64{w}), vh.U16s(out)),
 			fmt.Sprintf("rm/%x/%v/%x", seed[:], s, math.Float64bits(w)), ln > 1, nil)
 		if len(out) > len(s) || (ln > 0 && (len(out) == 0 || out[0] != s[0])) {
 			c.Fail("remove-first-suite", "removeRandomCiphers dropped the first suite or grew the list", map[string]any{"seed": fmt.Sprintf("%x", seed[:]), "s": s, "w": fmt.Sprint(w)}, out, "first suite kept")
